@@ -237,6 +237,10 @@ func runComp(seed int64, cc compCase, replay bool) {
 			arr = b.direct(qw, pl.Transport, client)
 		default:
 			sk, err := b.sockets()
+			for try := 0; err != nil && try < 5; try++ { // transient port / fd pressure
+				time.Sleep(100 * time.Millisecond)
+				sk, err = b.sockets()
+			}
 			if err != nil {
 				rep.Inconclusive("composition %d: cannot start loopback servers: %v", c.Idx, err)
 				return
@@ -358,7 +362,7 @@ func runComp(seed int64, cc compCase, replay bool) {
 				f.what, c.Idx, c.Shape, pl.Transport, i, q.NameStr, q.Type, q.Class, q.ID), w)
 		}
 		if replay && i == last {
-			fmt.Printf("replayed composition %d up to query %d over %s: class=%s failures=%d\n", c.Idx, i, pl.Transport, v.class, len(v.fails))
+			fmt.Printf("replayed composition %d up to query %d over %s (%d-byte message): class=%s replies=%d note=%q failures=%d\n", c.Idx, i, pl.Transport, len(qw), v.class, len(arr.replies), arr.note, len(v.fails))
 			for _, f := range v.fails {
 				fmt.Printf("  %s: %s\n", f.class, f.what)
 			}
@@ -434,7 +438,7 @@ func main() {
 		rep.Finish()
 	}
 
-	nComp := rep.Pick(1500, 10000)
+	nComp := rep.Pick(1500, 18000)
 	nQ := rep.Pick(250, 400)
 	// most of a composition's wall time is spent waiting (settle windows, silent
 	// upstreams), so more workers than cores pays off
@@ -488,6 +492,16 @@ func main() {
 		}
 		rep.Extra("poolsan_reports", prs)
 	}
+	closeHangs.Lock()
+	if closeHangs.n > 0 {
+		rep.Count("composition_shutdowns_hung", int64(closeHangs.n))
+		rep.Extra("shutdown_hang", map[string]any{
+			"note":         "closing the composition's plugins (Mosdns close -> plugin Close) did not finish within the watchdog; not judged by C03 (Close/termination is C07), the instance was leaked and the run continued",
+			"compositions": closeHangs.comps,
+			"blocked":      closeHangs.stack,
+		})
+	}
+	closeHangs.Unlock()
 	rep.Extra("workers", workers)
 	rep.Extra("run_s", time.Since(start).Seconds())
 
